@@ -29,6 +29,8 @@ def canon_atom(e):
         if isinstance(op, (ast.NotIn, ast.In)):
             return ('notin', a, b), pol if isinstance(op, ast.NotIn) else not pol
         if isinstance(op, (ast.IsNot, ast.Is)):
+            if b == 'None' or a == 'None':  # identity and equality with None are the same test for the values compared here
+                return ('ne',) + tuple(sorted((a, b))), pol if isinstance(op, ast.IsNot) else not pol
             return ('isnot', a, b), pol if isinstance(op, ast.IsNot) else not pol
         return (type(op).__name__, a, b), pol
     if isinstance(e, ast.Call) and isinstance(e.func, ast.Name) and e.func.id == 'isinstance':
@@ -81,10 +83,31 @@ def dnf(e, pol=True):
     """DNF (list of frozensets of (pred, polarity)) of a boolean expression"""
     if isinstance(e, ast.UnaryOp) and isinstance(e.op, ast.Not):
         return dnf(e.operand, not pol)
+    if isinstance(e, ast.Constant) and isinstance(e.value, bool):
+        return [frozenset()] if e.value == pol else []
     if isinstance(e, ast.Call) and isinstance(e.func, ast.Name) and pol:
         h = _helper_truthy_dnf(e)
         if h is not None:
             return h
+    if isinstance(e, ast.IfExp):
+        # (a if t else b) == (t and a) or (not t and b); its negation == (t and not a) or (not t and not b)
+        neg = (lambda x: x) if pol else (lambda x: ast.UnaryOp(op=ast.Not(), operand=x))
+        e2 = ast.BoolOp(op=ast.Or(), values=[ast.BoolOp(op=ast.And(), values=[e.test, neg(e.body)]),
+                                             ast.BoolOp(op=ast.And(), values=[ast.UnaryOp(op=ast.Not(), operand=e.test), neg(e.orelse)])])
+        return dnf(e2, True)
+    if isinstance(e, ast.Compare) and len(e.ops) > 1:
+        # a < b <= c  ==  a < b and b <= c
+        parts_, left = [], e.left
+        for op, c in zip(e.ops, e.comparators):
+            parts_.append(ast.Compare(left=left, ops=[op], comparators=[c]))
+            left = c
+        return dnf(ast.BoolOp(op=ast.And(), values=parts_), pol)
+    if isinstance(e, ast.Compare) and isinstance(e.ops[0], (ast.In, ast.NotIn)) and isinstance(e.comparators[0], (ast.Tuple, ast.List, ast.Set)) \
+            and 0 < len(e.comparators[0].elts) <= 4 and all(isinstance(x, ast.Constant) for x in e.comparators[0].elts):
+        # x in (a, b)  ==  x == a or x == b  (constants: None is compared with `is` by writers, which is the same test)
+        eqs = [ast.Compare(left=e.left, ops=[ast.Eq()], comparators=[x]) for x in e.comparators[0].elts]
+        inner = ast.BoolOp(op=ast.Or(), values=eqs) if len(eqs) > 1 else eqs[0]
+        return dnf(inner, pol if isinstance(e.ops[0], ast.In) else not pol)
     if isinstance(e, ast.BoolOp):
         is_and = isinstance(e.op, ast.And) == pol
         parts = [dnf(v, pol) for v in e.values]
@@ -267,7 +290,7 @@ def rule_eq_ladders(ck, repo):
     ck.require(branch is not None, 'QueryBond.__eq__: isinstance(other, Bond) branch not found')
     clauses, fall = reject_dnf(branch)
     got = simplify(clauses)
-    want = {frozenset([(('isnot', 'self.in_ring', 'None'), True), (('ne', 'other.in_ring', 'self.in_ring'), True)]),
+    want = {frozenset([(('ne', 'None', 'self.in_ring'), True), (('ne', 'other.in_ring', 'self.in_ring'), True)]),
             frozenset([(('notin', 'other.order', 'self.order'), True)])}
     for cl in want:
         ck.decide(cl in got, R2, f'rejects:{show(cl)}', None, f'QueryBond.__eq__ no longer rejects when `{show(cl)}`', file=b.file, line=b.lineno, func=b.qualname)
@@ -402,6 +425,11 @@ class _Unknown(Exception):
     pass
 
 
+_BINOPS = {ast.Add: lambda a, b: a + b, ast.Sub: lambda a, b: a - b, ast.Mult: lambda a, b: a * b, ast.FloorDiv: lambda a, b: a // b,
+           ast.Mod: lambda a, b: a % b, ast.BitAnd: lambda a, b: a & b, ast.BitOr: lambda a, b: a | b, ast.LShift: lambda a, b: a << b,
+           ast.RShift: lambda a, b: a >> b}
+
+
 def _ev(e, env):
     """tiny evaluator for guard expressions over one sample value (finite-domain decision of a predicate, like the regex enumeration)"""
     if isinstance(e, ast.Constant):
@@ -437,6 +465,56 @@ def _ev(e, env):
         return True
     if isinstance(e, ast.Attribute) and src(e) in env:
         return env[src(e)]
+    if isinstance(e, ast.BinOp) and type(e.op) in _BINOPS:
+        try:
+            return _BINOPS[type(e.op)](_ev(e.left, env), _ev(e.right, env))
+        except (TypeError, ZeroDivisionError):
+            raise _Unknown('arithmetic on unsuitable operands')
+    if isinstance(e, ast.IfExp):
+        return _ev(e.body, env) if _ev(e.test, env) else _ev(e.orelse, env)
+    if isinstance(e, ast.Subscript) and src(e) not in env:
+        recv = _ev(e.value, env)
+        if not isinstance(recv, (list, tuple, str, dict, range)):
+            raise _Unknown('subscript of a non-sequence')
+        try:
+            if isinstance(e.slice, ast.Slice):
+                lo, hi, st = (None if x is None else _ev(x, env) for x in (e.slice.lower, e.slice.upper, e.slice.step))
+                return recv[lo:hi:st]
+            return recv[_ev(e.slice, env)]
+        except (TypeError, KeyError, IndexError):
+            raise _Unknown('subscript out of the sample domain')
+    if isinstance(e, ast.Subscript):
+        return env[src(e)]
+    if isinstance(e, (ast.List, ast.Set)):
+        return [_ev(x, env) for x in e.elts]
+    if isinstance(e, ast.Call) and isinstance(e.func, ast.Name) and e.func.id == 'range' and 1 <= len(e.args) <= 3 and 'range' not in env:
+        try:
+            return range(*[_ev(a, env) for a in e.args])
+        except TypeError:
+            raise _Unknown('range of non-integers')
+    if isinstance(e, ast.Call) and isinstance(e.func, ast.Name) and e.func.id == 'bool' and len(e.args) == 1:
+        return bool(_ev(e.args[0], env))
+    if isinstance(e, (ast.GeneratorExp, ast.ListComp, ast.SetComp)) and len(e.generators) == 1 and isinstance(e.generators[0].target, ast.Name):
+        g = e.generators[0]
+        seq = _ev(g.iter, env)
+        if not isinstance(seq, (list, tuple, set, frozenset, range)):
+            raise _Unknown('iteration over a non-sequence')
+        out = []
+        for x in seq:
+            env2 = dict(env)
+            env2[g.target.id] = x
+            if all(_ev(c, env2) for c in g.ifs):
+                out.append(_ev(e.elt, env2))
+        return set(out) if isinstance(e, ast.SetComp) else out
+    if isinstance(e, ast.Call) and isinstance(e.func, ast.Name) and e.func.id in ('any', 'all', 'set', 'sorted', 'tuple', 'list', 'min', 'max', 'sum') \
+            and len(e.args) == 1 and not e.keywords and e.func.id not in env:
+        seq = _ev(e.args[0], env)
+        if not isinstance(seq, (list, tuple, set, frozenset, range)):
+            raise _Unknown('builtin over a non-sequence')
+        try:
+            return {'any': any, 'all': all, 'set': set, 'sorted': sorted, 'tuple': tuple, 'list': list, 'min': min, 'max': max, 'sum': sum}[e.func.id](seq)
+        except (TypeError, ValueError):
+            raise _Unknown('type error in builtin')
     if isinstance(e, ast.Call) and isinstance(e.func, ast.Attribute) and e.func.attr in ('get', 'keys', 'values') :
         recv = _ev(e.func.value, env)
         if isinstance(recv, dict):
@@ -544,26 +622,23 @@ def rule_constraint_normalisers(ck, repo, R):
                       f'{name}: admits scalars {sorted(admitted)[:8]}.. but the documented set is {sorted(scalars)[:8]}..', file=f.file, line=f.lineno, func=f.qualname)
         i_seq = chosen.get('tuple')
         if i_seq is not None and kinds.get('tuple') == 'sorted':
-            gens = []
-            uniq = typed = False
-            for s in arms[i_seq][1]:
-                if not (isinstance(s, ast.If) and any(isinstance(n, ast.Raise) for n in ast.walk(s))):
-                    continue
-                t = s.test
-                txt = src(t)
-                if 'len(set(' in txt:
-                    uniq = True
-                for n in ast.walk(t):
-                    if isinstance(n, ast.GeneratorExp) and len(n.generators) == 1 and isinstance(n.generators[0].target, ast.Name):
-                        var = n.generators[0].target.id
-                        if 'isinstance' in src(n.elt):
-                            typed = True
-                        else:
-                            gens.append((var, n.elt))
-            try:
-                adm = {v for v in PROBE if not any(_ev(e, {var: v}) for var, e in gens)}
-            except _Unknown as e:
-                raise AnalysisError(f'{name}: member range guard not understood ({e})')
+            guards = [s_.test for s_ in arms[i_seq][1] if isinstance(s_, ast.If) and any(isinstance(n, ast.Raise) for n in ast.walk(s_))]
+
+            def rejects(seq):
+                """evaluate the raise-guards of the sequence arm, in order, on a concrete sequence (any spelling: any/all, chained comparisons)"""
+                for g_ in guards:
+                    try:
+                        if _ev(g_, {par: seq}):
+                            return True
+                    except _Unknown as e_:
+                        if 'type error' in str(e_):
+                            return None  # a member of the wrong type reached a comparison: no type guard in front
+                        raise AnalysisError(f'{name}: member guard `{src(g_)}` not understood ({e_})')
+                return False
+            ok_member = next(iter(sorted(members)))
+            adm = {v for v in PROBE if rejects([v]) is False}
+            uniq = rejects([ok_member, ok_member]) is True
+            typed = rejects(['x']) is True
             ck.decide(adm == {v for v in PROBE if v in members} and uniq and typed, R, f'{name}:member-range', None,
                       f'{name}: list members admitted {sorted(adm)[:8]}.., unique-check={uniq}, int-check={typed}; documented set {sorted(members)[:8]}..',
                       file=f.file, line=f.lineno, func=f.qualname)
